@@ -299,7 +299,7 @@ func genHammers(o genOpts, w *bufio.Writer, families ...string) {
 			// first contact over and over: an accepted, another accepted and a refused create for a never-seen subscriber together
 			n := 600
 			if o.tier == "thorough" {
-				n = 6000
+				n = 3000
 			}
 			fmt.Fprintf(w, "conc first %s %d\n", hexOf([]byte(fmt.Sprintf("imsi-2%04d%02d", o.seed%10000, r.intn(100)))), n)
 		}
@@ -351,7 +351,7 @@ func genCgf(o genOpts, w *bufio.Writer) {
 	fmt.Fprintf(w, "conc cgf up\n")
 	rounds := 500
 	if o.tier == "thorough" {
-		rounds = 4000
+		rounds = 2000
 	}
 	for j, roles := range []string{"CV", "EV", "SV"} {
 		fmt.Fprintf(w, "conc hammer %s %s %d\n", roles, hexOf([]byte(fmt.Sprintf("imsi-20896%04d%03d%03d", o.seed%10000, j, r.intn(1000)))), rounds)
